@@ -93,6 +93,36 @@ CLAIMS = {
         "note": "J, K, detJ independent symbols; numpy reshape/ndindex modelled by documented row-major semantics; MeshSequence branches not instantiated. " + TB,
         "technique": "abstract interpretation of pullback.apply into Q[J,K,1/detJ,r] with exact polynomial comparison against an oracle push-forward; dispatch-table and guard checks on the AST",
     },
+    "C14": {
+        "level": "other",
+        "text": "check_integrand_arity + ArityChecker are lifted as a whole pass on a family of structured symbolic integrands over a test function, a trial function, a third argument and coefficients (sums, products, quotients, conj/real/imag, indexing, implicit sums, list/component tensors, conditionals, restrictions, derivatives, variables). For every integrand the lifted check accepts (real or complex mode), the checker proves on the lifted term: additivity and homogeneity in each argument separately, antilinearity in the test function and linearity in the others in complex mode, and dependence on exactly the form's arguments. Every normal exit of FormData construction passes through the arity check with the form's arguments and the complex flag (must-pass-through).",
+        "note": "Soundness direction only (an over-strict checker is not a violation); finite integrand family, number of accepted integrands bounded below. Compound operators (dot/inner/outer) are lowered before the check and are not instantiated. " + TB,
+        "technique": "abstract interpretation of the arity-checking pass on structured symbolic integrands + exact (multi)linearity identities on the lifted terms; must-pass-through query on the AST",
+    },
+    "C16": {
+        "level": "other",
+        "text": "compute_form_with_arity + PartExtracter are lifted on integrands affine in the trial function; the arity-2/1/0 parts must equal B = e - e[u:=0], L = e[u:=0] - e[u:=0,v:=0] and e[u:=0,v:=0] exactly, so F = lhs(F) - rhs(F); lhs uses arity 2, rhs the negated arity-1 part, functional arity 0; compute_form_adjoint conjugates each integrand and swaps number and part of the two arguments with its ordering guards; compute_form_action replaces the highest-numbered argument and energy_norm is the action applied twice (AST facts on the wrappers).",
+        "note": "Finite integrand family; Form/Integral bookkeeping (integral reconstruction, empty forms) is not lifted. " + TB,
+        "technique": "abstract interpretation of the part-extraction pass + exact comparison with the affine decomposition of the lifted term; AST facts on the wrapper functions",
+    },
+    "C17": {
+        "level": "other",
+        "text": "RestrictionPropagator is lifted as a whole pass on structured integrands whose terminals carry one symbol per cell side. The result must mean the same as the input for all side values consistent with continuity (continuous quantities identified across sides; n('-') = -n('+') only on affine non-manifold meshes), every side-dependent terminal must end up with exactly one restriction and side-independent ones with none, ill-formed inputs (missing / double restriction, restriction outside facet integrals) must be rejected, and the per-terminal-type policy in the dispatch table must be at least as strict as the checker's oracle table; unknown terminal types fail loudly.",
+        "note": "Oracle policy table lists the terminal types by continuity class (reviewed against the geometry definitions). Finite integrand family; apply_default_restrictions is covered by the policy rule only. " + TB,
+        "technique": "abstract interpretation of the restriction-propagation pass on two-sided symbolic integrands + exact comparison of meanings; dispatch-table policy comparison",
+    },
+    "C18": {
+        "level": "other",
+        "text": "SumDegreeEstimator is lifted as a whole pass on integrands that are polynomials in the spatial coordinate (each argument / coefficient component of degree d is a generic monomial c*x**d); the true degree is read off the normal form of the lifted meaning in Q[c..][x] and must not exceed the estimate. Family: sums, products, integer powers, fixed and free indexing, implicit sums, list/component tensors, conditionals, derivatives, restrictions, variables, and components of mixed elements with different sub-degrees incl. Piola-mapped sub-elements on immersed meshes and symmetric elements.",
+        "note": "Non-polynomial operators (division by non-constants, math functions, abs) have no true degree and are outside the decided family. Affine simplex cells; tuple (tensor-product) degrees not instantiated; attach_estimated_degrees / estimate_total_polynomial_degree checked to attach each integrand's own estimate / take the maximum. " + TB,
+        "technique": "abstract interpretation of the degree-estimation pass + exact polynomial degree of the lifted meaning as oracle",
+    },
+    "C22": {
+        "level": "other",
+        "text": "FormSplitter.split is lifted as a whole pass on rank-1 and rank-2 integrands over mixed-element arguments for three layouts - including a symmetric tensor sub-element (3 reference / 4 physical components) and contravariant Piola sub-elements on an immersed mesh (2 / 3) - in both replace_argument modes. Every block (i,j) must equal, exactly, the integrand with all test components outside sub-function i and all trial components outside sub-function j set to zero (physical component layout; kept components renamed to the sub-space argument when replacing). That identity gives both clauses: blocks sum to the original, block (i,j) depends only on sub-functions i and j. Fixed-index folding of list tensors and the restricted-operand path are exercised; the MixedFunctionSpace path (arguments with parts) keeps exactly the requested part. physical_value_shape of each sub-element is lifted from pullback.py.",
+        "note": "extract_blocks' bookkeeping over Form objects (empty blocks -> None, arity inference) is not lifted. " + TB,
+        "technique": "abstract interpretation of the splitting pass on structured symbolic integrands + exact comparison with the projected integrand",
+    },
 }
 
 NOT_APPLICABLE = {
